@@ -7,6 +7,17 @@ import (
 
 // ApplyFilter applies a filter to a value
 func (ctx *RenderContext) ApplyFilter(name string, value interface{}, args ...interface{}) (interface{}, error) {
+	// Every filter application goes through here, so this is where a sandboxed
+	// context consults the security policy
+	if ctx.sandboxed {
+		if ctx.env == nil || ctx.env.securityPolicy == nil {
+			return nil, fmt.Errorf("cannot apply filter '%s' in a sandboxed context without a security policy", name)
+		}
+		if !ctx.env.securityPolicy.IsFilterAllowed(name) {
+			return nil, NewFilterViolation(name)
+		}
+	}
+
 	// Look for the filter in the environment
 	if ctx.env != nil {
 		if filter, ok := ctx.env.filters[name]; ok {
